@@ -38,6 +38,7 @@ Denote(i) ==
     [] mn = "crot_y" -> <<Rot(Mul(PZ(q[1]), PY(q[2])), Ang(i.imm[1], i.imm[2]))>>
     [] mn = "cnot" -> <<Rot(Mul(PZ(q[1]), PX(q[2])), 0 - HalfPi), Rot(PZ(q[1]), HalfPi), Rot(PX(q[2]), HalfPi)>>
     [] mn = "cphase" -> <<Rot(Mul(PZ(q[1]), PZ(q[2])), 0 - HalfPi), Rot(PZ(q[1]), HalfPi), Rot(PZ(q[2]), HalfPi)>>
+    [] mn = "pauli_rot" -> <<Rot([x |-> i.p.x, z |-> i.p.z, ph |-> i.p.ph], i.th)>>     \* reference circuits (Toolbox)
     [] OTHER -> << >>
 
 RECURSIVE DenoteAll(_)
